@@ -759,6 +759,14 @@ class Session:
         r = encode(self.cfg.singleton_value(op['key'], ctor if op['ctor'] else None), self.gin)
       elif name == 'macrolookup':
         r = encode(self.cfg.ParserDelegate().macro(op['name']), self.gin)
+        if isinstance(r, dict) and 'const' in r:
+          # the same (possibly abbreviated) spelling through query_parameter: the very same constant
+          try:
+            q = self.gin.query_parameter(op['name'])
+          except Exception as e:  # pylint: disable=broad-except
+            return {'err': 'query_parameter raised ' + type(e).__name__}
+          if q is not self.cfg._CONSTANTS[r['const']]:  # pylint: disable=protected-access
+            return {'err': 'query_parameter returned another object'}
       elif name == 'parse':
         return self.op_parse(op)
       elif name == 'parsefiles':
